@@ -44,7 +44,7 @@ func wfEvent(r *Rng) *mocrelay.Event {
 }
 
 func wfNaddr(r *Rng) string {
-	return fmt.Sprintf("%d:%s:%s", pick(r, []int{0, 3, 10002, 30023, 65535}), hexN(r, 64), pick(r, []string{"", "x", "a:b", "::", "日本"}))
+	return fmt.Sprintf("%d:%s:%s", pick(r, []int{0, 3, 10002, 30023, 65535}), hexN(r, 64), pick(r, []string{"", "x", "a:b", "::", "日本", "\n", "a\nb", "\r\n", " ", "\t", "\u2028", "\x00"}))
 }
 
 func wfFilter(r *Rng) *mocrelay.ReqFilter {
@@ -121,7 +121,9 @@ func wfClientMsg(r *Rng) mocrelay.ClientMsg {
 var prefixes = []string{"", "pow: ", "duplicate: ", "blocked: ", "rate-limited: ", "invalid: ", "error: "}
 
 func wfServerMsg(r *Rng) mocrelay.ServerMsg {
-	msgTexts := []string{"", "ok", "failed: a: b", "日本語 <&>", "x\ny"}
+	msgTexts := []string{"", "ok", "failed: a: b", "日本語 <&>", "x\ny",
+		// texts that LOOK like a machine-readable prefix but are not one: another letter case, no blank, a blank before
+		"Error: x", "BLOCKED: y", "Duplicate: ", "Pow: ", "error:x", " error: x", "rate-Limited: z", "invalid : w"}
 	switch r.Intn(7) {
 	case 0:
 		return mocrelay.NewServerEOSEMsg(pick(r, uniStrs))
